@@ -271,7 +271,8 @@ def handle (_ : Unit) (toks : List Tok) : Unit × String :=
           -- `applyLinks = run ∘ runEvents` is a theorem; the driver executes both and says so if they differ
           let same := encMol s.1 == encMol s'.1
           pure (flag ++ " " ++ (if same then "" else encStr "RUN-DIFFERS" ++ " ") ++
-                encMolX posf s.1 (runLogs log lls lg0) (encEvents (m, []) evs))
+                encMolX posf s.1 (runLogs log lls lg0) (encEvents (m, []) evs) ++ " " ++
+                encList (s.1.nodes.map fun n => encList [encInt n.key, encAttrs (attrWrites n.key evs)]))
     | [Tok.str "effnew", name, keys, fmt] => do
         match effNew (← name.str?) (← ints? keys) (← fmt.optStr?) with
         | some _ => pure "ok"
